@@ -47,7 +47,7 @@ func planEndpoint(seed int64, sess int, id uint64, side int, budget int) epPlan 
 }
 
 func rawPlan(seed int64, sess int, id uint64, side int, budget int) epPlan {
-	rng := rand.New(rand.NewSource(int64(mix64(uint64(seed)^mix64(uint64(sess))^mix64(id*2+uint64(side))))))
+	rng := rand.New(rand.NewSource(int64(mix64(uint64(seed) ^ mix64(uint64(sess)) ^ mix64(id*2+uint64(side))))))
 	p := epPlan{EarlyClose: -1}
 	switch rng.Intn(6) {
 	case 0:
